@@ -74,19 +74,19 @@ func trip() {
 func tripped() bool {
 	tripMu.Lock()
 	defer tripMu.Unlock()
-	return trips >= 4
+	return trips >= 3
 }
 
 func ceiling() time.Duration {
 	if tripped() {
-		return 3 * time.Second
+		return 2 * time.Second
 	}
 	return 20 * time.Second
 }
 
 func longTimeout() time.Duration {
 	if tripped() {
-		return 2 * time.Second
+		return 400 * time.Millisecond
 	}
 	return 30 * time.Second
 }
